@@ -18,8 +18,8 @@ TRUSTED = [
     "harness/extractors_state.py `ast` scan (CacheSites) for the observables table",
 ]
 PARTIAL = [
-    "C16_observables_table is FALSE on the current tree: `_SetIndexPost._divisions` reads divisions_lru behind an assert (D10); proven as "
-    "C16_observables_table_partial excluding exactly that site",
+    "C16_observables_table relies on the syntactic judgement of the CacheSites scan that every `_SetIndexPost(…)` call passes non-None divisions "
+    "(the assert-on-miss read of D10 is still in the source, unreachable)",
     "cached_property values and parquet plan/statistics caches are only covered by the search (fresh interpreter with empty caches)",
 ]
 ASSUMPTIONS = ["names are a function of (class, operands) (C08) so that the receiving process's Expr._instances returns an equal tree (C15_singleton)"]
